@@ -454,6 +454,13 @@ fn child_main(s: &Scenario, quiet: bool) -> i32 {
         Err(_) => {
             let first = panics.first().cloned().unwrap_or_else(|| "<panic with no message>".into());
             let clause = classify(&first);
+            // A spin-wait under an unfair schedule (the DFS may keep scheduling the spinner) makes
+            // the tools give up on that execution: a bound of the exploration, not a verdict.
+            let lf = first.to_ascii_lowercase();
+            let gave_up = clause == "panic" && (lf.contains("exceeded max_steps") || lf.contains("maximum number of branches") || lf.contains("max_branches"));
+            if gave_up {
+                (false, Some(format!("tool gave up on a spinning execution: {}", first.chars().take(120).collect::<String>())), Value::Null)
+            } else {
             (
                 false,
                 None,
@@ -465,6 +472,7 @@ fn child_main(s: &Scenario, quiet: bool) -> i32 {
                     "at_execution": rec.execs.load(StdOrd::Relaxed),
                 }),
             )
+            }
         }
     };
     let outcomes = rec.outcomes.lock().unwrap_or_else(|e| e.into_inner());
@@ -895,4 +903,9 @@ fn main() {
     if violations > 0 {
         std::process::exit(1);
     }
+}
+
+/// What `std::cell::` in the lock source is re-bound to (see build.rs).
+pub mod stdcell {
+    pub use std::cell::{Cell, RefCell, UnsafeCell};
 }
